@@ -97,8 +97,47 @@ def run(run):
         key = bytes(rng.getrandbits(8) for _ in range(rng.choice(
             (0, 1, 94, 162, 294))))
         check(sid, secret, key, 'random')
+    # ---- keys as a server may encode them ------------------------------------
+    # The hash is over the key bytes *as received*.  Real and well-formed keys
+    # in the canonical SubjectPublicKeyInfo form, and loadable variants of the
+    # same key (AlgorithmIdentifier without the NULL parameters, a bare PKCS#1
+    # RSAPublicKey): each hashes to the SHA-1 of its own bytes.
+    if run.shard == 0:
+        from cryptography.hazmat.primitives import serialization
+        from cryptography.hazmat.primitives.asymmetric import rsa
+
+        def der_len(n):
+            if n < 0x80:
+                return bytes([n])
+            b = n.to_bytes((n.bit_length() + 7) // 8, 'big')
+            return bytes([0x80 | len(b)]) + b
+
+        def tlv(tag, body):
+            return bytes([tag]) + der_len(len(body)) + body
+        for bits in (1024, 2048):
+            k_ = rsa.generate_private_key(public_exponent=65537,
+                                          key_size=bits).public_key()
+            spki = k_.public_bytes(
+                serialization.Encoding.DER,
+                serialization.PublicFormat.SubjectPublicKeyInfo)
+            pkcs1 = k_.public_bytes(serialization.Encoding.DER,
+                                    serialization.PublicFormat.PKCS1)
+            oid = bytes.fromhex('06092a864886f70d010101')
+            no_null = tlv(0x30, tlv(0x30, oid) + tlv(0x03, b'\x00' + pkcs1))
+            with_null = tlv(0x30, tlv(0x30, oid + b'\x05\x00') +
+                            tlv(0x03, b'\x00' + pkcs1))
+            assert with_null == spki
+            for label, kb in (('canonical', spki), ('no-null', no_null),
+                              ('pkcs1', pkcs1), ('trailing-byte', spki + b'\0'),
+                              ('pem', k_.public_bytes(
+                                  serialization.Encoding.PEM, serialization.
+                                  PublicFormat.SubjectPublicKeyInfo))):
+                for sid in ('', 'srv', '-'):
+                    check(sid, bytes(range(16)), kb, 'key form ' + label)
+                    run.count('key_encodings_checked')
     if run.shard == 0 and found:
         s, (sid, secret, key) = sorted(found.items())[0]
         run.sample({'shape': s, 'server_id': sid, 'secret': secret, 'key': key,
                     'hash': javahash.server_hash(sid, secret, key)})
     run.require('digest_shapes', 6)
+    run.require('key_encodings_checked', 10)
